@@ -124,6 +124,7 @@ func (p c01) Gen(seed uint64, tier string, idx int) (*Case, bool) {
 	// generated programs and mutants
 	o := gen.FullOpts()
 	o.BigWords = true
+	o.HDMultiLine = true
 	g := gen.NewG(src, o)
 	n := 1 + src.Intn(3)
 	for _, it := range g.Stream(n) {
